@@ -66,6 +66,11 @@ def specs(tier, seed):
       y[0], y[1] = 1, -1
       close = (y == 1) & (rng.rand(n) < 0.5)    # some similar pairs really are close
       pairs[close, 1] = pairs[close, 0] + 0.2 * scale * rng.randn(int(close.sum()), d)
+      if k % 3 == 1:
+        # hub points: two points take part in many pairs each (pairs drawn from a data set re-use points with unequal multiplicity)
+        hubs = rng.randn(2, d) * scale
+        for r in range(0, n, 2):
+          pairs[r, r % 4 // 2] = hubs[(r // 2) % 2]
       spec.update(pairs=pairs, y=y)
     out.append(spec)
   return out
@@ -156,6 +161,17 @@ def check(spec):
         return 'diagonal: returned', None
       # -------------------------------------------------------------------------------------------------- full
       A0 = _initialize_metric_mahalanobis(pairs, init, random_state=spec['random_state'], matrix_name='init')
+      if init == 'covariance' if isinstance(init, str) else False:
+        # the documented meaning of the option, computed independently of the initialiser: (pseudo-)inverse of the covariance matrix of the
+        # DISTINCT training points (a point taking part in several pairs counts once)
+        P = np.unique(np.vstack([pairs[:, 0], pairs[:, 1]]), axis=0)
+        Cp = np.atleast_2d(np.cov(P, rowvar=False))
+        cond = float(np.linalg.cond(Cp))
+        if cond < 1e10:
+          A0i = np.linalg.pinv(Cp, hermitian=True)
+          if not np.allclose(A0, A0i, rtol=0, atol=max(1e-9, 1e3 * np.finfo(float).eps * cond) * np.abs(A0i).max()):
+            return 'full: checked', bad('init-is-starting-point', "init='covariance': the starting matrix differs from the inverse covariance of the %d distinct "
+                                        'training points by %.3g (largest entry %.3g)' % (len(P), np.abs(A0 - A0i).max(), np.abs(A0i).max()))
       vs = (pairs[:, 0] - pairs[:, 1])[y == 1]
       vd = (pairs[:, 0] - pairs[:, 1])[y == -1]
       sum_s = lambda A: float(sum(v.dot(A).dot(v) for v in vs))
